@@ -546,7 +546,31 @@ def rule_newton(chk, funcs):
         want = ctx.ind((ctx.var('ur') - ctx.var('ul')) - ctx.mul(ctx.mul(Poly.const(2), ctx.inv(ctx.var('gamma') - Poly.const(1))),
                        ctx.fn('sqrt', [ctx.mul(ctx.var('gamma') * ctx.var('pl'), ctx.inv(ctx.var('rhol')))]) + ctx.fn('sqrt', [ctx.mul(ctx.var('gamma') * ctx.var('pr'), ctx.inv(ctx.var('rhor')))])))
         first = [(live, val) for live, val, env in pre.returns]
-        okv = len(first) == 1 and isinstance(first[0][1], Poly) and first[0][1] == Poly.const(1) and ctx.prove_zero(ctx.expand_all(first[0][0]) - ctx.expand_all(want))[0]
+        def ind_arg(p_):
+            """the argument of a bare indicator [arg > 0] (definitions inside it expanded), None for anything else"""
+            if len(p_.t) == 1:
+                (mono, c_), = p_.t.items()
+                if c_ == 1 and len(mono) == 1 and mono[0][1] == 1 and ctx.atoms.get(mono[0][0], ('',))[0] == 'ind':
+                    return ctx.expand_all(ctx.atoms[mono[0][0]][1])
+            return None
+        okv = len(first) == 1 and isinstance(first[0][1], Poly) and first[0][1] == Poly.const(1)
+        if okv:
+            okv = ctx.prove_zero(ctx.expand_all(first[0][0]) - ctx.expand_all(want))[0]
+            if not okv:
+                # the same test with its operands kept in temporaries: compare what the indicators test, not the indicator atoms (1 - [x > 0] is the `<=` spelling)
+                ga, wa = ind_arg(first[0][0]), ind_arg(want)
+                def unit(p_):
+                    """scaled so that the coefficient of `ur` has modulus 1 (a positive factor does not change what an indicator tests)"""
+                    for mono, c_ in p_.t.items():
+                        if mono == (('ur', 1),):
+                            return p_ * Poly.const(1 / abs(c_))
+                    return p_
+                if ga is None:
+                    ga2 = ind_arg(Poly.const(1) - first[0][0])
+                    wa2 = ind_arg(Poly.const(1) - want) if wa is None else None
+                    okv = ga2 is not None and ((wa2 is not None and ctx.prove_zero(unit(ga2) - unit(wa2))[0]) or (wa is not None and ctx.prove_zero(unit(ga2) + unit(wa))[0]))
+                else:
+                    okv = wa is not None and ctx.prove_zero(unit(ga) - unit(wa))[0]
         vac = [s for s in fn.body if isinstance(s, ast.If) and any(isinstance(x, ast.Return) for x in ast.walk(s)) and s.lineno < an.loop.lineno]
         chk.decide(okv, 'vacuum-check', 'exact', node=vac[0] if vac else fn, file=RS, func=nm,
                    detail_bad='exact must return 1 before iterating exactly when 2(c_l + c_r)/(gamma - 1) <= u_r - u_l with c = sqrt(gamma p / rho) (pressure positivity condition)',
